@@ -33,3 +33,5 @@ pub use runtime::Runtime;
 pub use stack::Stack;
 pub use val::Val;
 pub use var::Var;
+#[cfg(feature = "verif-hooks")]
+pub use runtime::VerifProbe;
